@@ -55,6 +55,11 @@ type Term struct {
 	N    int    // number of args
 	Val  uint64 // constant value / extract low bit
 	Name string // variable name
+	// Arith: the term contains a wide multiplication / division / remainder (routes queries to the integer back end)
+	Arith bool
+	vars  []int32 // sorted ids of the variables occurring in the term (computed lazily)
+	varsOK bool
+	rng    rng
 }
 
 type termKey struct {
@@ -104,8 +109,80 @@ func (tb *TB) mk(op Op, w int, val uint64, name string, a, b, c *Term) *Term {
 	case a != nil:
 		t.N = 1
 	}
+	for i := 0; i < t.N; i++ {
+		if t.Args[i].Arith {
+			t.Arith = true
+		}
+	}
+	switch op {
+	case OpMul, OpUDiv, OpURem, OpSDiv, OpSRem:
+		if w >= 32 {
+			t.Arith = true
+		}
+	}
 	tb.tab[k] = t
 	return t
+}
+
+// Vars returns the sorted ids of variables occurring in t.
+func (t *Term) Vars() []int32 {
+	if t.varsOK {
+		return t.vars
+	}
+	switch {
+	case t.Op == OpVar:
+		t.vars = []int32{int32(t.ID)}
+	case t.N == 0:
+	default:
+		cur := t.Args[0].Vars()
+		for i := 1; i < t.N; i++ {
+			cur = mergeVars(cur, t.Args[i].Vars())
+		}
+		t.vars = cur
+	}
+	t.varsOK = true
+	return t.vars
+}
+
+func mergeVars(a, b []int32) []int32 {
+	if len(a) == 0 {
+		return b
+	}
+	if len(b) == 0 {
+		return a
+	}
+	// fast path: identical
+	if len(a) == len(b) {
+		same := true
+		for i := range a {
+			if a[i] != b[i] {
+				same = false
+				break
+			}
+		}
+		if same {
+			return a
+		}
+	}
+	r := make([]int32, 0, len(a)+len(b))
+	i, j := 0, 0
+	for i < len(a) && j < len(b) {
+		switch {
+		case a[i] < b[j]:
+			r = append(r, a[i])
+			i++
+		case a[i] > b[j]:
+			r = append(r, b[j])
+			j++
+		default:
+			r = append(r, a[i])
+			i++
+			j++
+		}
+	}
+	r = append(r, a[i:]...)
+	r = append(r, b[j:]...)
+	return r
 }
 
 func mask(w int) uint64 {
@@ -362,6 +439,9 @@ func (tb *TB) Eq(a, b *Term) *Term {
 		}
 		return tb.Eq(inner, tb.Const(inner.W, b.Val))
 	}
+	if a.W > 0 && tb.disjointRanges(a, b) {
+		return tb.False
+	}
 	if a.ID > b.ID {
 		a, b = b, a
 	}
@@ -545,6 +625,37 @@ func (tb *TB) Bin(op Op, a, b *Term) *Term {
 			return a
 		}
 	}
+	if op == OpSDiv || op == OpSRem {
+		if ra, rb := tb.Range(a), tb.Range(b); ra.slo >= 0 && rb.slo > 0 {
+			if op == OpSDiv {
+				return tb.Bin(OpUDiv, a, b)
+			}
+			return tb.Bin(OpURem, a, b)
+		}
+	}
+	if op == OpBAnd && b.IsConst() {
+		ra := tb.Range(a)
+		p := uint64(0)
+		for p < ra.uhi {
+			p = p<<1 | 1
+		}
+		if b.Val&p == 0 {
+			return tb.Const(w, 0)
+		}
+		if b.Val&p == p {
+			return a // mask keeps every possible bit
+		}
+	}
+	if (op == OpURem) && b.IsConst() && b.Val > 0 {
+		if ra := tb.Range(a); ra.uhi < b.Val {
+			return a
+		}
+	}
+	if (op == OpUDiv) && b.IsConst() && b.Val > 0 {
+		if ra := tb.Range(a); ra.uhi < b.Val {
+			return tb.Const(w, 0)
+		}
+	}
 	// distribute over ite-of-constants when the other side is constant
 	if b.IsConst() && a.Op == OpIte {
 		n := iteDistLimit
@@ -558,7 +669,11 @@ func (tb *TB) Bin(op Op, a, b *Term) *Term {
 			return tb.mapLeaves(b, func(l *Term) *Term { v, _ := evalBin(op, w, a.Val, l.Val); return tb.Const(w, v) })
 		}
 	}
-	return tb.mk(op, w, 0, "", a, b, nil)
+	res := tb.mk(op, w, 0, "", a, b, nil)
+	if r := tb.Range(res); r.ulo == r.uhi {
+		return tb.Const(w, r.ulo)
+	}
+	return res
 }
 
 // Cmp builds an ordering comparison (OpULt, OpULe, OpSLt, OpSLe).
@@ -583,6 +698,17 @@ func (tb *TB) Cmp(op Op, a, b *Term) *Term {
 		n := iteDistLimit
 		if constLeaves(b, &n) {
 			return tb.mapLeaves(b, func(l *Term) *Term { return tb.Bool(evalCmp(op, w, a.Val, l.Val)) })
+		}
+	}
+	if v, ok := tb.cmpByRange(op, a, b); ok {
+		return tb.Bool(v)
+	}
+	if op == OpSLt || op == OpSLe {
+		if ra, rb := tb.Range(a), tb.Range(b); ra.slo >= 0 && rb.slo >= 0 {
+			if op == OpSLt {
+				return tb.Cmp(OpULt, a, b)
+			}
+			return tb.Cmp(OpULe, a, b)
 		}
 	}
 	// unsigned comparisons against trivial bounds
